@@ -15,6 +15,16 @@ def run(ctx):
         e = g.expr(rnd.choice([1, 2, 3, 4, 5]))
         inp = rnd.choice(exprgen.INPUTS)
         cases.append(mkcase('E%d' % i, lib.new_cfg(select=[e + '=x']), inp.encode('utf8')))
+    # compositions: numeric results used as counts / indices / keys by other functions (integral results must be integers)
+    producers = ['(round %s)', '(floor %s)', '(ceil %s)', '(abs %s)', '(+ %s 1)', '(- %s 1)', '(* %s 2)', '(/ %s 2)', '(%% %s 3)', '(sum [%s, 1])', '(size [%s, %s])', '(- %s)']
+    consumers = ['(take . %s)', '(take_last . %s)', '(sub . 0 %s)', '(sub . %s 2)', '(get . %s)', '(head "abcdef" %s)', '(tail "abcdef" %s)', '(range %s)', '(stringify %s)', '(= %s 2)', '(sort [%s, 2, 1.5])', '(sort_unique [%s, 2, 3])', '(push [] %s)', '(as_number %s)']
+    nums = ['1.6', '2.4', '2.5', '2', '-1.5', '4', '0.4', '3.0', '1e0', '6']
+    k = 0
+    for pr in producers:
+        for co in consumers:
+            for _ in range(2 if ctx['tier'] == 'quick' else 8):
+                x = rnd.choice(nums); e = co % (pr.replace('%s', x))
+                cases.append(mkcase('P%d' % k, lib.new_cfg(select=[e + '=x']), b'[10, 20, 30, 40, 50]')); k += 1
     # corpora of the function models run first (minimised / curated cases)
     corpus = []
     for f in ('funs_coll.txt', 'funs_num.txt', 'funs_nas.txt'):
@@ -62,6 +72,12 @@ def run(ctx):
            'functions_exercised': len(g.usage),
            'traces_validated_against_impl': len(cases) + len(corpus) - len(mism), 'model_mismatches': len(mism), 'direct_relations_checked': checked}
     broken = ['correspondence: model and implementation differ on %d cases, e.g. %s' % (len(mism), json.dumps(mism[0])[:1500])] if mism else []
+    # the function models satisfy the documented laws (Proofs/FunLaws.v): a disagreement is an input on which the
+    # implementation does not evaluate to the documented value
+    byid = {c['id']: c for c in cases + corpus}
+    for m in mism[:5]:
+        c = byid.get(m['case']['id'])
+        if c is not None: violations.append(viol(c, 'the expression evaluates to the value the documented semantics (the Coq model, Proofs/FunLaws.v) prescribes', m.get('impl'), m.get('model')))
     return {'coverage': cov, 'violations': violations, 'broken': broken}
 
 def jeq(a, b):
